@@ -134,6 +134,9 @@ class Evaluator:
         if isinstance(s, ast.Expr):
             if isinstance(s.value, ast.Constant) or (isinstance(s.value, ast.Call) and norm(s.value.func).startswith(('logger.', 'logging.', 'warnings.'))):
                 return
+            if isinstance(s.value, ast.Call) and norm(s.value.func) in ('self._mos_readers.remove', 'self.mos_readers.remove') and len(s.value.args) == 1:
+                self.vals['readers_removed'] = norm(s.value.args[0])
+                return
             raise Unrecognised(norm(s))
         if isinstance(s, ast.Pass):
             return
@@ -188,6 +191,8 @@ class Evaluator:
             raise Unrecognised(norm(s))
         raise Unrecognised(norm(s))
 
+    # (no further statement kinds are recognised)
+
 
 def accept_table(res: CheckResult, prog: Program):
     res.rules['ACCEPT-TABLE'] = ('the acceptance predicate of MosCollection._validate over (empty, same_id, n_create, n_delete, allow_incomplete) equals: '
@@ -240,6 +245,13 @@ def accept_table(res: CheckResult, prog: Program):
     res.add('POST-STATE', fi.short, 'self._ro = <roCreate readers>[0].mos_object', ok, '' if ok else f'self._ro is assigned from {ro_from!r}', fi.file, fi.node.lineno)
     ra = post.get('readers_after', '')
     ok = 'for' in ra and 'mos_type != RunningOrder' in ra and 'sorted' not in ra and 'reversed' not in ra
+    rm = post.get('readers_removed')
+    if not ok and rm is not None and ra in ('list(self.mos_readers)', 'list(self._mos_readers)', 'self.mos_readers.copy()', 'self._mos_readers.copy()'):
+        # copy-and-remove form: list.remove() compares with ==, so it is the roCreate reader only if MosReader keeps identity equality
+        eq = prog.cls('MosReader').find('__eq__')
+        ok = rm.endswith('[0]') and eq is None
+        if not ok:
+            ra = f'{ra} followed by .remove({rm})' + (' while MosReader defines __eq__: another reader comparing equal is removed instead' if eq is not None else '')
     res.add('POST-STATE', fi.short, 'self._mos_readers = [mr for mr in self.mos_readers if mr.mos_type != RunningOrder]', ok,
             '' if ok else f'remaining readers are {ra!r}', fi.file, fi.node.lineno)
 
